@@ -412,13 +412,13 @@ func (te *TypeEnv) rangeFact(v Term, t types.Type) Term {
 			return and(le(bigLit(lo), v), le(v, bigLit(hi)))
 		}
 		if u.Info()&types.IsString != 0 {
-			return and(le(intLit(0), stLen(v)), le(intLit(0), stPtr(v)), le(stLen(v), bigLit(new(big.Int).Sub(pow2(63), big.NewInt(1)))))
+			return and(le(intLit(0), stLen(v)), le(intLit(0), stPtr(v)), lt(stPtr(v), bigLit(pow2(63))), le(stLen(v), bigLit(new(big.Int).Sub(pow2(63), big.NewInt(1)))))
 		}
 	case *types.Slice:
-		return and(le(intLit(0), slLen(v)), le(slLen(v), slCap(v)), le(intLit(0), slPtr(v)), le(slCap(v), bigLit(new(big.Int).Sub(pow2(63), big.NewInt(1)))),
+		return and(le(intLit(0), slLen(v)), le(slLen(v), slCap(v)), le(intLit(0), slPtr(v)), lt(slPtr(v), bigLit(pow2(63))), le(slCap(v), bigLit(new(big.Int).Sub(pow2(63), big.NewInt(1)))),
 			implies(eq(slPtr(v), intLit(0)), eq(slCap(v), intLit(0))))
 	case *types.Pointer, *types.Map, *types.Chan, *types.Signature:
-		return le(intLit(0), v)
+		return and(le(intLit(0), v), lt(v, bigLit(pow2(63))))
 	case *types.Struct:
 		si := te.structSortOf(t, u)
 		var fs []Term
